@@ -1,6 +1,7 @@
 import HdVerif.Model.Json
 import HdVerif.Model.PixelPipeline
 import HdVerif.Generated.T6g
+import HdVerif.Generated.T6i
 open Lean HdVerif HdVerif.Drv HdVerif.Gen HdVerif.PixelPipeline
 
 def getTri (v : Json) : Except String Tri :=
@@ -113,6 +114,9 @@ def handlers : List (String × Handler) := [
     let r := checkRescaleDtype (← getRat j "slope") (← getRat j "intercept") (← getBool j "has_range") (← getInt j "rmin")
       (← getInt j "rmax") (← getStr j "out_kind") (← getStr j "in_kind") (← getInt j "out_max") (← getInt j "out_min")
       (← getInt j "in_max") (← getInt j "in_min")
+    pure (exceptToJson (fun (b : Bool) => Json.bool b) r)),
+  ("presentationInverts", fun j => do
+    let r := presentationInverts (← getBool j "apply") (← getBool j "has_shape") (← getStr j "shape") (← getStr j "photometric")
     pure (exceptToJson (fun (b : Bool) => Json.bool b) r)),
   ("lutInit", fun j => do
     let r := lutInit (← getInt j "first") (← getNat j "bits") (← getNatList j "data")
